@@ -46,7 +46,7 @@ type verifC37Op struct {
 	Wait  bool // SubmitWait (pool and worker queue only)
 	Ctx   int  // 0 background, 1 already cancelled, 2 cancelled after CtxUs
 	CtxUs int
-	Pre   int // sched mode: pause of the producer before this call: 0 none, 1 yield PreN times, 2 sleep PreN microseconds
+	Pre   int // sched mode: pause of the producer before this call: 0 none, 1 yield PreN times, 2 sleep PreN microseconds, 3 until some goroutine is held at an observation point or in a Lat-4 handler, 4 (closed loop) until this producer's previous item, if admitted, was handled (3, 4: at most PreN microseconds)
 	PreN  int
 }
 
@@ -167,6 +167,9 @@ func (r *verifC37Run) handle(shard int, items []verifC37Item) {
 	end := r.clock.Add(1)
 	r.batches = append(r.batches, verifC37BatchRec{Shard: shard, Start: start, End: end, IDs: ids, First: first, Resched: resched})
 	r.mu.Unlock()
+	if r.sched != nil {
+		r.sched.handled(ids)
+	}
 	r.running.Add(-1)
 }
 
@@ -420,6 +423,12 @@ func verifC37Check(t *testing.T, prim string, sched bool) {
 		aux.Add(1)
 		go func() { // fallback: guarantees progress, shapes the schedule only
 			defer aux.Done()
+			if plan.FallbackUs <= 0 {
+				// sched mode: every wait of the plan is bounded by itself and
+				// the end of the producers' scripts opens the gate and calls Close
+				<-stopTimers
+				return
+			}
 			tm := time.NewTimer(time.Duration(plan.FallbackUs) * time.Microsecond)
 			defer tm.Stop()
 			select {
@@ -457,6 +466,12 @@ func verifC37Check(t *testing.T, prim string, sched bool) {
 						}
 					case 2:
 						time.Sleep(time.Duration(op.PreN) * time.Microsecond)
+					case 3:
+						r.sched.awaitHeld(op.PreN)
+					case 4:
+						if n := len(out); n > 0 && out[n-1].Err == "" {
+							r.sched.awaitHandled(out[n-1].ID, op.PreN)
+						}
 					}
 					s := r.clock.Add(1)
 					err := tg.submit(ctx, op.Wait, op.Item)
